@@ -217,7 +217,7 @@ func (c *spliceInsert) SetHasDuration(value bool) {
 
 // SetDuration sets the PTS duration of the command
 func (c *spliceInsert) SetDuration(value gots.PTS) {
-	c.duration = value
+	c.duration = value & 0x01ffffffff // a 33 bit field, like the pts
 }
 
 // SetIsAutoReturn sets the boolean value of the auto return field
